@@ -117,22 +117,25 @@ def flush : S Unit := fun s =>
 
 /-! ### block switches -/
 
-/-- `readBlockSwitch(bd)`. -/
-def readBlockSwitch (bd : BlockDec) : M BlockDec := do
-  let symType ← readSymbol bd.decType
-  let symType :=
-    match symType with
-    | 0 => bd.type1
-    | 1 => if bd.type0 + 1 ≥ bd.numTypes then bd.type0 + 1 - bd.numTypes else bd.type0 + 1
-    | t => t - 2
-  let symLen ← readSymbol bd.decLen
-  let len ← readOffset symLen blkLenRanges
-  pure { bd with type0 := symType % 256, type1 := bd.type0, typeLen := len }
+/-- `readBlockSwitch(bd)`: with a single block type the only block is used up and the meta-block
+    defines no code that could announce another one. -/
+def readBlockSwitch (bd : BlockDec) : M BlockDec :=
+  if bd.numTypes < 2 then panic .corrupted
+  else do
+    let symType ← readSymbol bd.decType
+    let symType :=
+      match symType with
+      | 0 => bd.type1
+      | 1 => if bd.type0 + 1 ≥ bd.numTypes then bd.type0 + 1 - bd.numTypes else bd.type0 + 1
+      | t => t - 2
+    let symLen ← readSymbol bd.decLen
+    let len ← readOffset symLen blkLenRanges
+    pure { bd with type0 := symType % 256, type1 := bd.type0, typeLen := len }
 
 /-- the head of `readPrefixCodes` for one block decoder. -/
 def readBlockDec (bd : BlockDec) : M BlockDec := do
   let numTypes ← readSymbol decCounts
-  let bd := { bd with type0 := 0, type1 := 1, typeLen := -1, numTypes := numTypes }
+  let bd := { bd with type0 := 0, type1 := 1, typeLen := 2 ^ 24, numTypes := numTypes }   -- RFC section 10: the count of the only block
   if numTypes ≥ 2 then
     let decType ← readPrefixCode (numTypes + 2)
     let decLen ← readPrefixCode 26
